@@ -9,7 +9,7 @@ Definition cali : list N := [99; 97; 108; 105].
 Definition eth0 : list N := [101; 116; 104; 48].
 Definition wcfg (v : ipver) (fsin : list fsport) : cfg :=
   Build_cfg v 0x10000 0x20000 0x80000 0x100000 [cali] fsin [] false false false 4789 false false 51820 51821 false
-            [119; 103; 48] [119; 103; 49] 1 false None ADrop AAccept AAccept ADrop false.
+            [119; 103; 48] [119; 103; 49] 1 false None ADrop AAccept AAccept ADrop false false 0xff000000 0x01000000 [].
 Definition env0 : env := {| e_sets := fun _ _ => false; e_other := other_of (fun _ _ => false) |}.
 Definition pkt (v : ipver) (proto dport icmpt : N) (inif : list N) (ct : ctstate) : packet :=
   Build_packet v proto 1 2 1000 dport icmpt 0 inif [] ct 0.
